@@ -203,6 +203,15 @@ def _build(case):
 
 
 def _eval(case):
+    try:
+        return _eval_unguarded(case)
+    except Exception as ex:  # anything unexpected while judging a case is reported against the case, not as a harness crash
+        import traceback
+
+        return ["unexpected %s while evaluating the case: %s | %s" % (type(ex).__name__, ex, traceback.format_exc()[-400:])], "exception"
+
+
+def _eval_unguarded(case):
     if case["t"] == "custom":
         return _eval_custom(case)
     if case["t"] == "multi":
